@@ -10,6 +10,7 @@ import Amshan.Model.Obis
 import Amshan.Model.BackOff
 import Amshan.Model.Decoders
 import Amshan.Spec.Lists
+import Amshan.Model.ConnMgr
 import Amshan.Spec.ObisText
 /-
   Line-protocol driver: one request per line on stdin, one answer per line on stdout.
@@ -487,6 +488,65 @@ def opListEnc : List String → String
       else "bad-args"
   | _ => "bad-args"
 
+/-! connmgr : trace inclusion — does the transition system have a run producing exactly the observed events? -/
+def evOf? (tok : String) : Option (Nat × ConnMgr.Ev) :=
+  match tok.splitOn ":" with
+  | [t, e] =>
+    match t.toNat? with
+    | some t =>
+      if e == "A" then some (t, .attempt)
+      else if e == "F" then some (t, .failed)
+      else if e == "X" then some (t, .closeCalled)
+      else if e == "D" then some (t, .loopDone)
+      else if e.startsWith "O" then ((e.drop 1).toString.toNat?).map (fun n => (t, .obtained n))
+      else if e.startsWith "C" then ((e.drop 1).toString.toNat?).map (fun n => (t, .closed n))
+      else if e.startsWith "L" then ((e.drop 1).toString.toNat?).map (fun n => (t, .lost n))
+      else none
+    | none => none
+  | _ => none
+
+/-- depth-first search over the scheduler nondeterminism: internal steps are free, environment steps
+    are taken only when the observed trace shows them, every emitted event must be the next observed one -/
+def cmAccepts : Nat → ConnMgr.S → List (Nat × ConnMgr.Ev) → Bool
+  | 0, _, obs => obs.isEmpty
+  | fuel + 1, s, obs =>
+    if obs.isEmpty then true
+    else
+      let s0 := { s with log := [] }
+      let tryLabel (l : ConnMgr.Label) : Bool :=
+        match ConnMgr.next s0 l with
+        | some s' =>
+          let em := s'.log
+          if em.isPrefixOf obs then
+            -- silent steps must make progress: forbid a silent step that changes nothing
+            if em.isEmpty && decide ({ s' with log := [] } = s0) then false
+            else cmAccepts fuel { s' with log := [] } (obs.drop em.length)
+          else false
+        | none => false
+      let envLabels : List ConnMgr.Label := match obs with
+        | (t, e) :: _ =>
+          (if t > s.now then [ConnMgr.Label.tick (t - s.now)] else []) ++
+          (if t == s.now then
+            (match e with
+             | .obtained _ => [ConnMgr.Label.factoryOk]
+             | .failed => [ConnMgr.Label.factoryFail]
+             | .lost _ => [ConnMgr.Label.lose]
+             | .closeCalled => [ConnMgr.Label.close]
+             | _ => [])
+           else [])
+        | [] => []
+      ([ConnMgr.Label.lRun, ConnMgr.Label.tRun] ++ envLabels).any tryLabel
+
+/-- connmgr maxDelay threshold sleep trace(tokens time:event joined by ',') -/
+def opConnMgr : List String → String
+  | [md, th, sl, trace] =>
+    let obsO : Option (List (Nat × ConnMgr.Ev)) := if trace == "." then some [] else (trace.splitOn ",").mapM evOf?
+    match md.toNat?, th.toNat?, sl.toNat?, obsO with
+    | some md, some th, some sl, some obs =>
+      bool01 (cmAccepts (8 * obs.length + 40) (ConnMgr.S.init md th sl) obs)
+    | _, _, _, _ => "bad-args"
+  | _ => "bad-args"
+
 def dispatch (line : String) : String :=
   match (line.trimAscii.toString.splitOn " ").filter (· ≠ "") with
   | [] => "bad-op"
@@ -499,6 +559,7 @@ def dispatch (line : String) : String :=
     | "hdlc.clean" => opHdlcClean args
     | "p1.read" => opP1Read args
     | "proto" => opProto args
+    | "connmgr" => opConnMgr args
     | "decode" => opDecode args
     | "list.enc" => opListEnc args
     | "auto" => opAuto args
